@@ -126,6 +126,9 @@ func c18Addr(c *harness.Check, cs addrCase) string {
 		}
 		for n, content := range expected {
 			out, ferr := tpl.String(n, nil)
+			if strings.HasPrefix(content, "@use(\"zbase\")") {
+				content = "<html>home</html>" // the one page of these trees that uses a layout
+			}
 			if ferr != nil || out != content {
 				failure = fmt.Sprintf("template %q renders %q / %v, its file holds %q", n, out, ferr, content)
 				return
@@ -159,6 +162,9 @@ func c18Addr(c *harness.Check, cs addrCase) string {
 		}
 		// evaluating a file by path equals evaluating its content as a string
 		for n, content := range expected {
+			if strings.Contains(content, "@use(") {
+				continue // layouts belong to the template API
+			}
 			abs := filepath.Join(root, filepath.FromSlash(prefix+n+cs.Ext))
 			fo, ferr := textwire.EvaluateFile(abs, nil)
 			so, serr := textwire.EvaluateString(content, nil)
@@ -243,6 +249,12 @@ func TestC18_Addressing(t *testing.T) {
 			// a symbolic link to a regular file is a file of the directory like any other
 			tr[realDir+"/target"+ext] = tree.Entry{Content: "FILE:target"}
 			tr[realDir+"/sub/alias"+ext] = tree.Entry{Kind: tree.Symlink, Content: "../target" + ext}
+		}
+		if rapid.IntRange(0, 2).Draw(rt, "sectionLayout") == 0 {
+			// a file that declares a reserve is a layout, also when it uses a layout itself
+			tr[realDir+"/zbase"+ext] = tree.Entry{Content: "<html>@reserve(\"body\")</html>"}
+			tr[realDir+"/zsection"+ext] = tree.Entry{Content: "@use(\"zbase\")@insert(\"body\")<main>@reserve(\"inner\")</main>@end"}
+			tr[realDir+"/sub/zhome"+ext] = tree.Entry{Content: "@use(\"zbase\")@insert(\"body\")home@end"}
 		}
 		if rapid.Bool().Draw(rt, "doubleExt") {
 			tr[realDir+"/dbl"+ext+ext] = tree.Entry{Content: "FILE:dbl" + ext}
